@@ -140,6 +140,9 @@ def enumerated(tier, seed):
                     yield case
             else:
                 yield base
+    # one label (below and above $100) named by two statements of different operand widths: each statement must
+    # still be the instruction it names, whatever the other one does with the label
+    yield from pair_cases()
     if tier == "thorough":
         full = list(range(0, 65536)) + list(range(-32768, 0))
         for mn in ("LDA", "LDX", "LDY", "LEAX", "STA", "CMPD", "JMP"):
@@ -153,6 +156,43 @@ def enumerated(tier, seed):
                     if lo <= v <= hi:
                         for tag, _ in A.spellings(v)[:2]:
                             yield dict(base, v=v, sp=tag, src="lit")
+
+
+def _pair_forms(label):
+    sym = {"sym": label, "op": "", "c": 0}
+    return [{"k": "mem", "mn": "LDA", "val": sym, "force": "<"}, {"k": "mem", "mn": "STA", "val": sym, "force": ">"},
+            {"k": "mem", "mn": "JMP", "val": sym, "force": ""}, {"k": "imm8", "mn": "LDB", "val": sym}, {"k": "imm16", "mn": "LDX", "val": sym},
+            {"k": "extind", "mn": "JSR", "val": sym}, {"k": "idx", "mn": "LDA", "reg": "Y", "ind": False, "val": sym},
+            {"k": "idx", "mn": "LDD", "reg": "U", "ind": True, "val": sym}, {"k": "fdb", "vals": [sym]}, {"k": "fcb", "vals": [sym]}]
+
+
+def pair_cases():
+    for org in (0x0020, 0x00F0, 0x0100, 0x2000):
+        forms = _pair_forms("L0")
+        for i, a in enumerate(forms):
+            for j, b in enumerate(forms):
+                if i == j:
+                    continue
+                if org >= 0x100 and any(f["k"] in ("imm8", "fcb") or f.get("force") == "<" for f in (a, b)):
+                    continue          # an address of $100 or more does not fit those one-byte positions
+                stmts = [{"lab": "", "k": "org", "addr": org}, {"lab": "L0", "k": "inh", "mn": "NOP"},
+                         dict(a, lab=""), dict(b, lab=""), {"lab": "L1", "k": "inh", "mn": "NOP"}]
+                yield dict(form="labelpair", pair={"org": org, "stmts": stmts})
+
+
+def execute_pair(case):
+    from vlib import proggen
+    prog = case["pair"]
+    lines = proggen.render(prog)
+    labels = ["form:labelpair", "src:label"]
+    out = driver.assemble(lines)
+    if out.kind != "OK":
+        return viol("valid pair of statements not accepted ({}: {}) source={!r}".format(out.kind, out.message, lines),
+                    fid="C01:pair:rejected", labels=labels)
+    problem, _, _ = proggen.check_layout(prog, out)
+    if problem:
+        return viol("{} source={!r}".format(problem, [l.strip() for l in lines]), fid="C01:pair:" + problem.split("(")[0][:24], labels=labels)
+    return ok(labels=labels, nontrivial=True)
 
 
 # ---- Hypothesis search: every field drawn independently, assembled by construction
@@ -229,6 +269,9 @@ def build(case):
 
 
 def render(case):
+    if case.get("form") == "labelpair":
+        from vlib import proggen
+        return dict(source=[l.rstrip("\n") for l in proggen.render(case["pair"])])
     lines, _, _, _ = build(case)
     return dict(case=case, source=[l.rstrip("\n") for l in lines])
 
@@ -244,6 +287,8 @@ def shape_of_failure(out):
 
 
 def execute(case):
+    if case.get("form") == "labelpair":
+        return execute_pair(case)
     lines, front, back, org = build(case)
     src = case.get("src", "lit")
     labels = ["form:" + case["form"], "src:" + ("equ" if src.startswith("equ") else "label" if src.startswith("label") else "lit")]
